@@ -742,27 +742,11 @@ func findIndexEntry(entries []*IndexEntry, offset int64) *IndexEntry {
 	if len(entries) == 0 {
 		return &IndexEntry{Offset: 0, Position: 0}
 	}
-	lo := 0
-	hi := len(entries) - 1
-	if offset <= entries[0].Offset {
+	// Entries are sorted by offset: pick the last one at or below the requested
+	// offset (the first entry when the offset lies before all of them).
+	i := sort.Search(len(entries), func(i int) bool { return entries[i].Offset > offset })
+	if i == 0 {
 		return entries[0]
 	}
-	if offset >= entries[hi].Offset {
-		return entries[hi]
-	}
-	for lo <= hi {
-		mid := (lo + hi) / 2
-		if entries[mid].Offset == offset {
-			return entries[mid]
-		}
-		if entries[mid].Offset < offset {
-			if mid+1 <= hi && entries[mid+1].Offset > offset {
-				return entries[mid]
-			}
-			lo = mid + 1
-		} else {
-			hi = mid - 1
-		}
-	}
-	return entries[0]
+	return entries[i-1]
 }
